@@ -786,6 +786,24 @@ def _is_scalar_const_value(val: Optional[ir.Value]) -> bool:
     return True
 
 
+def _value_rank(val: Optional[ir.Value]) -> Optional[int]:
+    if not isinstance(val, ir.Value):
+        return None
+    dims = _shape_dims_seq(val.shape)
+    if dims is not None:
+        return len(dims)
+    arr = _to_numpy_from_any(val)
+    if arr is not None:
+        return int(np.asarray(arr).ndim)
+    return None
+
+
+def _rank_at_most(val: Optional[ir.Value], ref: Optional[ir.Value]) -> bool:
+    """True only when both ranks are known and rank(val) <= rank(ref)."""
+    r_val, r_ref = _value_rank(val), _value_rank(ref)
+    return r_val is not None and r_ref is not None and r_val <= r_ref
+
+
 def _is_elementwise_node(node: ir.Node) -> bool:
     return (
         _op_type(node) in ELEMENTWISE_UNARY_OPS or _op_type(node) in ELEMENTWISE_BINARY_OPS
@@ -1900,6 +1918,12 @@ def remove_redundant_reshape_pairs_ir(graph: ir.Graph) -> None:
                     if _op_type(node) == "CastLike" and pos == 1:
                         continue
                     if not _is_scalar_const_value(iv):
+                        safe_chain = False
+                        break
+                    # A one-element constant of higher rank than ``src`` would
+                    # left-pad the folded result (numpy broadcasting); between
+                    # the two Reshapes that extra rank was absorbed by T2.
+                    if not _rank_at_most(iv, src):
                         safe_chain = False
                         break
                 prev_val = _node_output(node)
